@@ -171,6 +171,7 @@ impl Prop for C04 {
     }
     fn check(&self, case: &SpCase) -> Outcome {
         let mut out = Outcome::new();
+        crate::props::c08::poison_shortest_path_state(case.sources as u64, 64);
         let ng = case.g.norm();
         let graph = ng.build();
         let n = ng.n;
